@@ -1,4 +1,6 @@
 import OmbottModel.Drv.Range
+import OmbottModel.Drv.Qs
+import OmbottModel.Drv.StaticFile
 /-! Dispatch of a protocol line to the area handlers.  `State` holds the few models that are
 driven as state machines across lines (router, multipart feed, header store). -/
 namespace Drv
@@ -17,6 +19,8 @@ def step (st : State) (line : String) : State × String :=
     let pure? (r : Option String) : State × String := (st, r.getD "bad-op")
     match area with
     | "range" => pure? (Range.handle rest)
+    | "qs" => pure? (Qs.handle rest)
+    | "static" => pure? (StaticFile.handle rest)
     | _ => (st, "bad-op")
 
 end Drv
